@@ -43,7 +43,7 @@ ACCESS_RE = re.compile(
     r"self\._render|getattr\(self\.template|self\.template\.__dict__|"
     r"self\.registry|sys\.modules|module_cache|_pkg_digest|"
     r"self\.cook_check\(\)|self\.cook\(|self\.content_type|"
-    r"self\.source\b|self\.body\b")
+    r"self\.source\b|self\.body\b|self\._v_\w+")
 _access_cache: dict = {}
 from threading import get_ident as _get_ident  # noqa: E402
 
